@@ -351,3 +351,35 @@ def awaited_in_frame(ctx: Ctx, g: Graph, ev: Ev, depth: int = 0) -> bool:
         if cand.kind == 'call' and cand.info.get('callee') is inst:
             return awaited_in_frame(ctx, g, cand, depth + 1)
     return False
+
+
+def lock_world(ctx: Ctx, record):
+    """The lock manager of a world: an object of the repo's lock class whose *primitives* - the methods that touch a condition or
+    an event themselves (notify_all, Event.set, wait_for, Event.wait) - are replaced by `record(kind, name)`; every other method of
+    the class (helpers built on the primitives) is interpreted as written.  -> (object, stubs by function id)."""
+    from ..absint import AObj
+    p = ctx.p
+    kinds = {'notify_all': 'unlock_condition', 'notify': 'unlock_condition', 'set': 'unlock_event', 'wait_for': 'wait_for_condition',
+             'wait': 'wait_for_event'}
+    lock_cls = None
+    for ci in p.classes.values():
+        if ci.module.name.startswith('ml_pipeline_engine') and any(
+                isinstance(n, ast.Call) and isinstance(n.func, ast.Attribute) and n.func.attr == 'notify_all'
+                for m in ci.methods.values() for n in ast.walk(m.node)):
+            lock_cls = ci
+            break
+    if lock_cls is None:
+        raise AnalysisError('the lock class (the class that notifies a condition) was not found')
+    stubs = {}
+    for m in lock_cls.methods.values():
+        own = [n.func.attr for n in ast.walk(m.node) if isinstance(n, ast.Call) and isinstance(n.func, ast.Attribute)
+               and n.func.attr in kinds and not (isinstance(n.func.value, ast.Name) and n.func.value.id in ('self', 'cls'))]
+        if not own:
+            continue
+        kind = kinds[own[0]] if 'notify_all' not in own else 'unlock_condition'
+
+        def prim(interp, a, k, s_, kind=kind):
+            record(kind, a[0] if a else next(iter(k.values()), None))
+            return None
+        stubs[m.fid] = prim
+    return AObj(lock_cls, {}, tag='lock-manager'), stubs
